@@ -532,7 +532,9 @@ ASSUMPTIONS = ['float payloads and the streaming parser are only in the bounded 
 
 def values(rng, depth=0):
     scal = [0, 1, -1, 10, 255, 2 ** 40, -(2 ** 70), True, False, None, b'', b':', b'3:abc,', b'0:~', b'12', b'a:b,c#', u'', u'x', u'\xe9€\U0001f600',
-            u'5:', 1.5, -0.25, 1e300, 0.1]
+            u'5:', 1.5, -0.25, 1e300, 0.1,
+            # doubles whose shortest exact text needs 17 significant digits, the largest and the smallest double, seeded ones
+            0.1 + 0.2, 1.0 / 3.0, 2 ** 0.5, 1.7976931348623157e+308, 5e-324, 123456789.12345679, rng.random(), rng.uniform(-1e20, 1e20), rng.uniform(-1e-9, 1e-9)]
     v = rng.choice(scal)
     if depth < 3 and rng.random() < 0.4:
         k = rng.choice([0, 1, 2, 5])
